@@ -258,6 +258,9 @@ def _site_ace(item, ctx):
         _members_ok(res, acex, "ios", case, ctx, "Ace.ungroup_ports")
     if len({id(r) for r in res}) != len(res) or any(r is ace for r in res):
         ctx.viol("Ace.ungroup_ports:aliased_results", case, len(res), "fresh distinct objects")
+    elif _shared_fields(list(res) + [ace]):
+        ctx.viol("Ace.ungroup_ports:entries_share_field_objects", case, _shared_fields(list(res) + [ace]),
+                 "every entry owns its protocol/address/port/option objects")
 
 
 def check(its, site, ctx, where):
@@ -395,6 +398,10 @@ def check(its, site, ctx, where):
         if cex is not None:
             ctx.viol(f"{site}:decision_changed", dict(case, packet=list(cex)), lines,
                      [i.text("ios") for i in its])
+    if _shared_fields(_flat(obj)):
+        ctx.viol(f"{site}:entries_share_field_objects", case, _shared_fields(_flat(obj)),
+                 "every entry owns its protocol/address/port/option objects")
+        return
     if split_any:
         ctx.out("split_done")
         ctx.nt((site, tuple(case["lines"])))
@@ -407,6 +414,24 @@ def check(its, site, ctx, where):
                     lines.count(o.line) == 1 and o.uuid != ids_before[o.line][0]:
                 ctx.viol(f"{site}:unsplit_entry_replaced", case, o.line, "same object as before")
                 break
+
+
+FIELD_ATTRS = ("protocol", "srcaddr", "srcport", "dstaddr", "dstport", "option")
+
+
+def _shared_fields(aces):
+    """Names of field objects (or group members) that two of the entries share."""
+    seen, shared = {}, []
+    for k, a in enumerate(aces):
+        if not hasattr(a, "srcaddr"):
+            continue
+        objs = [(f, getattr(a, f)) for f in FIELD_ATTRS]
+        objs += [(f"{side}.member", m) for side in ("srcaddr", "dstaddr") for m in getattr(a, side).items]
+        for name, o in objs:
+            if id(o) in seen and seen[id(o)] != k:
+                shared.append(name)
+            seen[id(o)] = k
+    return shared
 
 
 def _flat(obj):
